@@ -30,7 +30,7 @@ MANIFEST = dict(
     level_note=("Trusted: Lean kernel; propext/Classical.choice/Quot.sound only; the harness and its fake sockets/"
                 "clock; the tunnel as a FIFO of frames (C07). Matching a reply to *its* query end to end needs "
                 "'no id is reassigned while an old server handler lives' (C10_full_false: false for small "
-                "MAX_CHANNEL, recorded as known finding). Real resolvers and random.shuffle's distribution are outside."),
+                "MAX_CHANNEL, recorded as known finding). The model keeps all per-query server state (socks, peers, tries) in the handler record, which a round drops once ok=false (C10_one_live_socket bounds it); that the runtime then closes the descriptors is NOT modelled in Lean: it is checked on the real code by the harness's resource oracle (sockets of retired queries must be released; EMFILE under a 16-descriptor budget in a 40-query sequential history). Real resolvers and random.shuffle's distribution are outside."),
     technique="Lean 4 proof (invariants by induction over arbitrary step lists) + differential correspondence with the real code",
 )
 DRIVER_TARGETS = ['SshuttleModel.Code.DgramSys', 'SshuttleModel.Gen.C10', 'SshuttleModel.Gen.C11']
